@@ -80,6 +80,18 @@ pub fn cfg_for(driver: &str, tier: &str) -> Option<(RCfg, u32)> {
             c.final_dispatches = 3;
             (c, if q { 1 } else { 2 })
         }
+        // C01: composite with a TransientSource child in front of plain siblings (positional sub-ids)
+        "composite" => {
+            let mut c = base("composite");
+            c.initial_sets = vec![vec![Spec::Comp], vec![Spec::Comp, PLAIN1]];
+            c.max_actors = 2;
+            c.depth = if q { 5 } else { 7 };
+            c.top_ops = true;
+            c.cb_ret = vec![Ret::Reregister, Ret::Disable];
+            c.cb_others = true;
+            c.max_cb_ops = 1;
+            (c, if q { 1 } else { 2 })
+        }
         "idle" => {
             let mut c = base("idle");
             c.initial_sets = vec![vec![PLAIN1], vec![PLAIN1, PLAIN1]];
